@@ -63,23 +63,24 @@ func init() {
 // Every attack position of the property (and each after a restart) has its own floor, counted only when the
 // attempt was refused with the error class of the mechanism under attack.
 var quickFloors = map[string]int64{
-	"blocks_committed":                 100,
-	"committed_confidential_spends":    170,
-	"committed_key_images":             220,
-	"restarts":                         23,
-	"control_blocks_accepted":          39,
-	"byzantine_blocks_checked":         440,
-	"oracle_blocks_read_back":          200,
-	"oracle_txs_read_back":             1100,
-	"oracle_key_images_checked":        440,
-	"oracle_account_nonces_checked":    780,
-	"pool_snapshots_checked":           300,
-	"refused_at:mempool":               150,
-	"refused_at:mempool-after-restart": 220,
-	"refused_at:checktx":               30,
-	"refused_at:checktx-state":         35,
-	"refused_at:block":                 150,
-	"refused_at:block-after-restart":   270,
+	"blocks_committed":                  100,
+	"committed_txs_with_failed_receipt": 30,
+	"committed_confidential_spends":     170,
+	"committed_key_images":              220,
+	"restarts":                          23,
+	"control_blocks_accepted":           39,
+	"byzantine_blocks_checked":          440,
+	"oracle_blocks_read_back":           200,
+	"oracle_txs_read_back":              1100,
+	"oracle_key_images_checked":         440,
+	"oracle_account_nonces_checked":     780,
+	"pool_snapshots_checked":            300,
+	"refused_at:mempool":                150,
+	"refused_at:mempool-after-restart":  220,
+	"refused_at:checktx":                30,
+	"refused_at:checktx-state":          35,
+	"refused_at:block":                  150,
+	"refused_at:block-after-restart":    270,
 	// (1) same key image twice inside one transaction
 	"refused:same-key-image-twice-in-one-tx":       100,
 	"refused:block/same-key-image-twice-in-one-tx": 50,
